@@ -51,6 +51,12 @@ def impl_eat(case):
     from socialchoicekit.bistochastic import birkhoff_von_neumann
     from socialchoicekit.profile_utils import StrictProfile
     out = []
+    rules = {}     # rule objects live as long as the worker batch: an outcome must not depend on what the object was used for before
+
+    def rule(ps, zero):
+        if (ps, zero) not in rules:
+            rules[(ps, zero)] = ProbabilisticSerial(zero_indexed=zero) if ps else SimultaneousEating(zero_indexed=zero)
+        return rules[(ps, zero)]
     for it in case["items"]:
         orig = npr.choice
         try:
@@ -59,8 +65,14 @@ def impl_eat(case):
                 P = P.astype(it["dtype"])
             prof = StrictProfile.of(P)
             speeds = np.array([float(Fraction(s)) for s in it["speeds"]])
-            se = SimultaneousEating(zero_indexed=it["zero"])
-            X = se.bistochastic(prof, speeds) if not it["ps"] else ProbabilisticSerial(zero_indexed=it["zero"]).bistochastic(prof)
+            se = rule(False, it["zero"])
+            if it.get("pre_speeds") and not it["ps"]:
+                # the same rule object first draws a lottery for the SAME profile eaten at other speeds
+                try:
+                    se.scf(prof, np.array([float(Fraction(s)) for s in it["pre_speeds"]]))
+                except Exception:  # noqa
+                    pass
+            X = se.bistochastic(prof, speeds) if not it["ps"] else rule(True, it["zero"]).bistochastic(prof)
             res = {"X": [[fr(Fraction(float(x))) for x in row] for row in X]}
             log = []
 
@@ -74,7 +86,7 @@ def impl_eat(case):
             np.random.choice = rec
             try:
                 try:
-                    a = ProbabilisticSerial(zero_indexed=it["zero"]).scf(prof) if it["ps"] else se.scf(prof, speeds)
+                    a = rule(True, it["zero"]).scf(prof) if it["ps"] else se.scf(prof, speeds)
                     res["alloc"] = [int(x) for x in a]
                 except Exception as e:  # noqa
                     res["scf_exc"] = type(e).__name__ + ": " + str(e)[:160]
@@ -165,6 +177,8 @@ def judge_eat(R, it, res, ans):
     fixer = 0 if it["zero"] else 1
     cfg = {"zero_indexed": it["zero"], "dtype": it["dtype"], "seed": it["seed"], "probabilistic_serial": it["ps"]}
     inp = {"P": P, "speeds": it["speeds"]}
+    if it.get("pre_speeds"):
+        inp["pre_speeds"] = it["pre_speeds"]
     incomplete = any(v is None for row in P for v in row)
     if "exc" in res or "hang" in res:
         R.violation("property_violation", "returns without error", ENTRY_EAT, inp, impl_output=res, oracle="raised/hang", config=cfg)
@@ -274,7 +288,11 @@ def run(R):
             dtype = R.rng.choice(["int64", "float64", "int32"])
         ps = R.rng.random() < 0.5
         speeds = ["1"] * n if ps else [R.rng.choice(["1", "2", "1/2", "3"]) for _ in range(n)]
-        eat_items.append({"P": P, "dtype": dtype, "zero": R.rng.random() < 0.5, "seed": R.rng.randrange(10 ** 6), "ps": ps, "speeds": speeds})
+        item = {"P": P, "dtype": dtype, "zero": R.rng.random() < 0.5, "seed": R.rng.randrange(10 ** 6), "ps": ps, "speeds": speeds}
+        if not ps and n >= 2 and R.rng.random() < 0.4:
+            item["pre_speeds"] = [R.rng.choice(["1", "2", "1/2", "3", "5"]) for _ in range(n)]
+            R.count("eat:same_object_same_profile_other_speeds_first")
+        eat_items.append(item)
     cases = [{"items": ch} for ch in chunks(eat_items, 10)]
     results = pmap("c07", "impl_eat", cases, deadline=120.0)
     flat = []
@@ -303,7 +321,7 @@ def replay(R, rep):
         judge_rsd(R, it, r, a)
     else:
         it = {"P": inp["P"], "dtype": cfg.get("dtype", "float64"), "zero": cfg.get("zero_indexed", False), "seed": cfg.get("seed", 0),
-              "ps": cfg.get("probabilistic_serial", False), "speeds": inp["speeds"]}
+              "ps": cfg.get("probabilistic_serial", False), "speeds": inp["speeds"], "pre_speeds": inp.get("pre_speeds")}
         r = pmap("c07", "impl_eat", [{"items": [it]}], deadline=60.0)[0]["results"][0]
         n = len(it["P"])
         a = "err incomplete"
